@@ -441,7 +441,9 @@ fn one_case(c: &mut Ctx, fam: &str, idx: u64) {
         1 => rng.range(20, 60),
         _ => rng.range(3, 16),
     };
-    let waves = rng.range(1, 3);
+    // every fourth case the peer is honest: each request is answered once, correctly, in time, in any order
+    let clean = idx % 4 == 2;
+    let waves = if clean { 1 } else { rng.range(1, 3) };
     let has_stream = matches!(transport, "stream" | "multi_stream" | "dgram_stream" | "redundant");
     let names: Vec<Vec<u8>> = (0..n)
         .map(|k| {
@@ -455,6 +457,9 @@ fn one_case(c: &mut Ctx, fam: &str, idx: u64) {
     let mut scripts = HashMap::new();
     for nm in &names {
         let mut sc = gen_script(&mut rng, has_stream, matches!(transport, "dgram" | "dgram_stream" | "load_balancer"));
+        if clean {
+            sc = vec![vec![Act { delay_ms: rng.range(0, 800) as u64, kind: Kind::Good }]];
+        }
         if transport == "stream" {
             for a in sc.iter_mut().flat_map(|x| x.iter_mut()) {
                 a.delay_ms /= 10;
@@ -462,7 +467,7 @@ fn one_case(c: &mut Ctx, fam: &str, idx: u64) {
         }
         scripts.insert(w::lower(nm), sc);
     }
-    let refuse = if matches!(transport, "multi_stream" | "dgram_stream" | "redundant") && rng.chance(1, 4) { rng.range(1, 3) as u64 } else { 0 };
+    let refuse = if !clean && matches!(transport, "multi_stream" | "dgram_stream" | "redundant") && rng.chance(1, 4) { rng.range(1, 3) as u64 } else { 0 };
     let peer = Arc::new(Peer { inner: Mutex::new(PeerInner { seen: vec![], scripts, attempts: HashMap::new(), recent: vec![], sent: BTreeMap::new(), connects: 0, refuse_stream_connects: refuse }), rng: Mutex::new(Rng::new(&[c.seed, idx, 15])) });
     // net::client::stream measures its response timeout with std::time::Instant, which the paused tokio clock does not move:
     // the plain stream transport is exercised in real time, with every delay and timeout a tenth as long
@@ -571,6 +576,10 @@ fn one_case(c: &mut Ctx, fam: &str, idx: u64) {
         }
         match &d.result {
             Err(e) => {
+                if clean {
+                    c.violation(&format!("honest-peer-request-failed:{}", transport), &format!("request {} of {} concurrent ones over {} failed ({}) although the peer answered every request once, correctly and within {} ms", d.k, n, transport, e, 800 / scale), rp(c, json!({})));
+                    return;
+                }
                 c.count("requests_failed", 1);
                 c.eval(&(transport, "err", e.chars().take(24).collect::<String>()));
             }
@@ -620,6 +629,9 @@ fn one_case(c: &mut Ctx, fam: &str, idx: u64) {
     }
     c.count("requests_answered", oks);
     c.count(&format!("cases:{}", transport), 1);
+    if clean {
+        c.count("honest_peer_cases", 1);
+    }
     c.count("peer_requests_seen", g.seen.len() as u64);
     if c.want_sample() && idx % 13 == 0 {
         c.sample(json!({"transport": transport, "requests": n, "answered": oks, "peer_saw": g.seen.len(), "recycled_ids": recycled}));
